@@ -201,6 +201,7 @@ func postStartReach(c *Ctx, roots []*ssa.Function, st *starterInfo, edgeOK func(
 // ---- main -----------------------------------------------------------------------------
 
 func runC07(c *Ctx, r *Report) {
+	importFoundation(c, r, "C07", "netconf-reader-lifecycle")
 	r.Rule("C07/globals-immutable", "package-level variables of the library are written only by init functions and inside sync.Once", 1)
 	checkGlobalsNotWrittenAtRunTime(c, r, "C07/globals-immutable")
 	importFoundation(c, r, "C07", "priv-bounded")
